@@ -39,10 +39,10 @@ func runConcurrent(t *rapid.T, replay *concCase) {
 	if replay != nil {
 		cc = *replay
 	} else {
-		cc.Fillers = rapid.SampledFrom([]int{50, 400, 2000}).Draw(t, "fillers")
-		cc.FillerLen = rapid.SampledFrom([]int{20, 500}).Draw(t, "filler_len")
-		cc.Snapshots = rapid.IntRange(2, 5).Draw(t, "snapshots")
-		cc.Writers = rapid.IntRange(1, 2).Draw(t, "writers")
+		cc.Fillers = rapid.SampledFrom([]int{400, 2000, 6000}).Draw(t, "fillers")
+		cc.FillerLen = rapid.SampledFrom([]int{100, 500}).Draw(t, "filler_len")
+		cc.Snapshots = rapid.IntRange(3, 6).Draw(t, "snapshots")
+		cc.Writers = rapid.IntRange(1, 3).Draw(t, "writers")
 	}
 	root := sut.NewScratchDir("c03conc")
 	defer os.RemoveAll(root)
